@@ -65,7 +65,7 @@ func fieldValue(n *Node, field string, args map[string]interface{}) interface{} 
 	case "rev":
 		return fmt.Sprintf("x=%v,y=%v", args["x"], args["y"])
 	case "pick":
-		return PickResult(args["i"], args["e"], args["in"], args["ids"], args["ss"])
+		return PickResult(args["i"], args["e"], args["in"], args["ids"], args["ss"], args["fs"], args["m"])
 	}
 	if field == "echo" || field == "set" {
 		if field == "set" {
@@ -331,17 +331,17 @@ func (c *Common) Tri(a, b, cc string) (interface{}, error) {
 }
 
 // Pick echoes its arguments (typed loosely so that the coerced request values arrive unchanged).
-func (c *Common) Pick(i interface{}, e interface{}, in interface{}, ids interface{}, ss interface{}) (interface{}, error) {
-	c.Xr.record(c.Xn, "pick", map[string]interface{}{"i": i, "e": e, "in": in, "ids": ids, "ss": ss})
+func (c *Common) Pick(i interface{}, e interface{}, in interface{}, ids interface{}, ss interface{}, fs interface{}, m interface{}) (interface{}, error) {
+	c.Xr.record(c.Xn, "pick", map[string]interface{}{"i": i, "e": e, "in": in, "ids": ids, "ss": ss, "fs": fs, "m": m})
 	if err := c.Xr.fault(CallKey{c.Xn.ID, "pick"}); err != nil {
 		return nil, err
 	}
-	return PickResult(i, e, in, ids, ss), nil
+	return PickResult(i, e, in, ids, ss, fs, m), nil
 }
 
 // PickResult is the value of pick(...) on every back end and in the reference.
-func PickResult(i, e, in, ids, ss interface{}) string {
-	return fmt.Sprintf("%s|%s|%s|%s|%s", CanonText(i), CanonText(e), CanonText(in), CanonText(ids), CanonText(ss))
+func PickResult(i, e, in, ids, ss, fs, m interface{}) string {
+	return fmt.Sprintf("%s|%s|%s|%s|%s|%s|%s", CanonText(i), CanonText(e), CanonText(in), CanonText(ids), CanonText(ss), CanonText(fs), CanonText(m))
 }
 
 // CanonText prints an argument value independent of its Go carrier (int kinds, Symbol vs string).
